@@ -38,7 +38,7 @@ type Builder struct {
 	// Types: every named type of the package (by name); lets the builder find the sum type behind
 	// a defined type (`type OpOK T0` has T0's fields but not its Set<Variant> methods).
 	Types map[string]reflect.Type
-	// TimeFormat: the one time format of the document ("date-time" default, "date", "time"): values are
+	// TimeFormat: the one time format of the document ("date-time" default, "date", "time", "unix*"): values are
 	// generated at that format's resolution.
 	TimeFormat string
 	// Hook, if set, may fill a struct field itself (return true).
@@ -214,6 +214,13 @@ func (b *Builder) fill(t *rapid.T, v reflect.Value, depth int) {
 		}
 		tm := time.Unix(sec, 0).UTC()
 		switch b.TimeFormat {
+		case "unix", "unix-seconds", "unix-milli", "unix-micro":
+			// an instant, whole seconds (the resolution all units share); no zone on the wire
+		case "unix-nano":
+			// the unit's representable range: int64 nanoseconds
+			if sec < -9223372036 || sec > 9223372036 {
+				tm = time.Unix(sec%9223372036, 0).UTC()
+			}
 		case "date":
 			tm = time.Date(tm.Year(), tm.Month(), tm.Day(), 0, 0, 0, 0, time.UTC)
 		case "time":
